@@ -360,3 +360,10 @@ Proof.
   intros Ha Hb Hne. destruct (dedup l) as [out|] eqn:E; [|reflexivity].
   exfalso. apply Hne. apply (dedup_from_conflict l [] n d d' out E Ha). left. exact Hb.
 Qed.
+
+(** * The rename chain of enum constants loses the identifier of underscore-digit names (C11) *)
+Theorem underscore_digit_chain_refuted :
+  enum_name_chain "_1" = [] /\
+  map fst (enum_name_chain "_12") = codes_of "2" /\ ident_shape (enum_name_chain "_12") = false /\
+  map fst (enum_name_chain "a-1") = codes_of "A1" /\ ident_shape (enum_name_chain "a-1") = true.
+Proof. vm_compute. repeat split; reflexivity. Qed.
